@@ -103,6 +103,9 @@ func runReplay(path string, wantSnap bool) (*historyResult, error) {
 				if k == "flat" {
 					cfg.flat = n == 1
 				}
+				if k == "hauth" {
+					cfg.hauth = n == 1
+				}
 			}
 		}
 	}
@@ -112,7 +115,7 @@ func runReplay(path string, wantSnap bool) (*historyResult, error) {
 		return nil, err
 	}
 	w.wantSnap = wantSnap
-	hr := &historyResult{Profile: "replay", RefThr: cfg.referenceThrottle, RstThr: cfg.resetThrottle, Flat: cfg.flat}
+	hr := &historyResult{Profile: "replay", RefThr: cfg.referenceThrottle, RstThr: cfg.resetThrottle, Flat: cfg.flat, HAuth: cfg.hauth}
 	client := func(name string) *wsClient {
 		for _, c := range w.clients {
 			if c.name == name {
@@ -177,6 +180,15 @@ func runReplay(path string, wantSnap bool) (*historyResult, error) {
 				return "/api/" + strings.ReplaceAll(name, ".", "/"), query
 			}
 			switch {
+			case len(p) > 4 && p[2] == "PUT":
+				path, query := ridPath(p[3])
+				body := strings.Join(p[4:], " ")
+				if body == "-" {
+					body = ""
+				}
+				w.httpDo("PUT", path, query, body)
+			case len(p) > 2 && p[2] == "DELETE405":
+				w.httpDo("DELETE", "/api/m/a", "", "")
 			case len(p) > 5 && p[2] == "POST":
 				path, query := ridPath(p[3])
 				body := strings.Join(p[5:], " ")
